@@ -1,5 +1,6 @@
 import Fuota.Lemmas.RingFlashSim
 import Fuota.Lemmas.RingFlashRunCalls
+import Fuota.Lemmas.RingFlashRunMore
 import Fuota.Props.C08
 import Fuota.Props.C12
 import Fuota.Props.C13
@@ -839,5 +840,606 @@ example (k : Nat) :=
 example := check_runs (C08.startUpd 20480 4 18 0 1) 20480 rfl rfl blankDev blankDev_good
   (by have := blankDev_size; show 0 * 20480 + 28 ≤ _; omega) (by have := blankDev_size; show 1 * 20480 + 28 ≤ _; omega)
 
+
+/-! ## `start_update` and `handle_segment` at the level of the device monad -/
+
+theorem outcome_good_fst {α : Type} {d : Dev} (h : Good d) (a : α) (ops : List Op) : (outcome d a ops).1 = .ok a := by
+  unfold outcome cutAt
+  rw [h.crash]
+
+/-- **`start_runs`**: `start_update` on a good device emits exactly `Ops.startOps` for the pair `alloc_slotpair`
+    chooses from the headers on flash and returns the fresh session object; with a power loss armed before its `k`-th
+    mutating operation exactly the first `k` of them took effect; and in every case the headers read back afterwards are
+    those of the header-level machine after the matching prefix of `startEffs` (`start_refines` on the real call). -/
+theorem start_runs (n S sz nn : Nat) (d : Dev) (h : Good d) (hwf : Crash.WF d.flash) (h28 : 28 ≤ d.flash.block)
+    (hdiv : S % d.flash.block = 0) (hn : 2 ≤ n) (hdev : n * S ≤ d.flash.size) (hrs : reasonablySized S sz nn = .ok ())
+    (hcap : 1 ≤ capacity S sz) :
+    ∃ es a b sa sb, choosePair n (hdrsOf d.flash n S) = .ok (a, b, sa, sb) ∧
+      startEffs (geomOf S sz nn) n (hdrsOf d.flash n S) = .ok (es, a, b) ∧
+      ((startUpdate n S sz nn).run d).1 = .ok (C08.startUpd S sz nn a b) ∧
+      ((startUpdate n S sz nn).run d).2.flash = d.flash.applyAll (Ops.startOps d.flash.block S sz nn a b sa sb) ∧
+      hdrsOf ((startUpdate n S sz nn).run d).2.flash n S = applyAll (hdrsOf d.flash n S) es ∧
+      ∀ k, ((startUpdate n S sz nn).run (d.withCrash k)).2.flash =
+          d.flash.applyAll ((Ops.startOps d.flash.block S sz nn a b sa sb).take k) ∧
+        hdrsOf ((startUpdate n S sz nn).run (d.withCrash k)).2.flash n S =
+          applyAll (hdrsOf d.flash n S) (es.take (kappaStart (S / d.flash.block) k)) := by
+  obtain ⟨es, a, b, sa, sb, hc, hse, hlen, hol, href⟩ :=
+    start_refines (n := n) (S := S) (sz := sz) (nn := nn) hwf rfl h28 hdiv hn hdev hrs hcap
+  have hgood := start_device n S sz nn d (live_of_good h) hn (by omega) hdiv hdev hrs hc
+  refine ⟨es, a, b, sa, sb, hc, hse, ?_, ?_, ?_, ?_⟩
+  · rw [hgood]; exact outcome_good_fst h _ _
+  · rw [hgood]; exact flash_outcome_good h _ _
+  · rw [hgood, flash_outcome_good h]
+    have := href (Ops.startOps d.flash.block S sz nn a b sa sb).length
+    rw [List.take_length] at this
+    rw [this, hol]
+    have hk : kappaStart (S / d.flash.block) (2 * (S / d.flash.block) + 8) = 4 := by
+      unfold kappaStart
+      have hm : 1 ≤ S / d.flash.block := by
+        have := Nat.div_add_mod S d.flash.block
+        apply Nat.pos_of_ne_zero; intro e; rw [e] at this
+        have : 17408 < S := (Ops.reasonablySized_ok hrs).2.2.2.2.2
+        omega
+      repeat' split
+      all_goals omega
+    rw [hk, ← hlen, List.take_length]
+  · intro k
+    have hcr := start_device n S sz nn (d.withCrash k) (live_withCrash h k) hn (by show 0 < d.flash.block; omega) hdiv hdev
+      hrs hc
+    have hfl : ((startUpdate n S sz nn).run (d.withCrash k)).2.flash =
+        d.flash.applyAll ((Ops.startOps d.flash.block S sz nn a b sa sb).take k) := by
+      rw [hcr]; exact flash_outcome_crash d k _ _
+    exact ⟨hfl, by rw [hfl]; exact href k⟩
+
+/-- **`handle_segment` does not touch the headers**: on any device (healthy, faulty, with a power loss armed anywhere,
+    or already dead), for every fragment index and payload, the headers read back are unchanged -/
+theorem handle_segment_keeps_headers (ffr : Bool) (idx : Nat) (bytes : List Nat) (u : Upd) (d : Dev) (n S : Nat)
+    (hg : Ops.SlotGeom u) (hfs : u.fw.size = S) (hps : u.par.size = S) :
+    hdrsOf ((handleSegment ffr idx bytes).run (u, d)).2.2.flash n S = hdrsOf d.flash n S ∧
+    ∀ k, hdrsOf ((handleSegment ffr idx bytes).run (u, d.withCrash k)).2.2.flash n S = hdrsOf d.flash n S :=
+  ⟨handleSegment_hdrsOf ffr idx bytes u d n S hg hfs hps,
+   fun k => handleSegment_hdrsOf ffr idx bytes u (d.withCrash k) n S hg hfs hps⟩
+
+/-! ## histories made of the real calls of the flash-level model -/
+
+/-- the two slots of a session object -/
+def pairOf (u : Upd) : Nat × Nat := (u.fw.idx, u.par.idx)
+
+/-- a session object in RAM for slots of size `S` -/
+structure RamOK (S : Nat) (u : Upd) : Prop where
+  geom : Ops.SlotGeom u
+  fs : u.fw.size = S
+  ps : u.par.size = S
+
+/-- what is left in RAM after a call that returns a session object: nothing when a power loss was armed (the device
+    reboots), nothing when the call failed -/
+def ramAfter (k : Option Nat) (r : Except MErr (Option Upd)) : Option Upd :=
+  if k = none then (match r with | .ok o => o | .error _ => none) else none
+
+/-- the same headers, another flash -/
+theorem sim_frame {c : Cfg} {B : Nat} {f f' : Flash} {se : Option (Nat × Nat)} {s : State} (h : Sim c B f se s)
+    (hh : hdrsOf f' c.n c.geom.slotSize = hdrsOf f c.n c.geom.slotSize) (hwf : Crash.WF f') (hb : f'.block = B)
+    (hz : f'.size = f.size) : Sim c B f' se s :=
+  ⟨h.reach, by rw [hh]; exact h.hs, h.sess, hwf, hb, by rw [hz]; exact h.dev⟩
+
+theorem sim_none {c : Cfg} {B : Nat} {f : Flash} (h : ∃ se s, Sim c B f se s)
+    (hroom : SeqRoom 2 (hdrsOf f c.n c.geom.slotSize)) : ∃ s', Sim c B f none s' := by
+  obtain ⟨se, s, hs⟩ := h
+  exact sim_drop hs hroom
+
+theorem CfgOK.slot28 {c : Cfg} {B : Nat} (ok : CfgOK c B) : 28 ≤ c.geom.slotSize := by
+  have := (Ops.reasonablySized_ok ok.rs).2.2.2.2.2
+  omega
+
+/-- `start_update`, run to its end or cut by a power loss -/
+theorem call_start {c : Cfg} {B : Nat} (ok : CfgOK c B) {f : Flash} {se : Option (Nat × Nat)} {s : State}
+    (h : Sim c B f se s) (hroom : SeqRoom 2 (hdrsOf f c.n c.geom.slotSize)) (d : Dev) (k : Option Nat) (hg : Good d)
+    (hdf : d.flash = f)
+    (hpost : k ≠ none → SeqRoom 2 (hdrsOf ((startUpdate c.n c.geom.slotSize c.geom.segSize c.geom.nseg).run
+      (arm d k)).2.flash c.n c.geom.slotSize)) :
+    (∃ s', Sim c B ((startUpdate c.n c.geom.slotSize c.geom.segSize c.geom.nseg).run (arm d k)).2.flash
+      ((ramAfter k (((startUpdate c.n c.geom.slotSize c.geom.segSize c.geom.nseg).run (arm d k)).1.map some)).map
+        pairOf) s') ∧
+    ∀ u, ramAfter k (((startUpdate c.n c.geom.slotSize c.geom.segSize c.geom.nseg).run (arm d k)).1.map some) = some u →
+      RamOK c.geom.slotSize u := by
+  subst hdf
+  obtain ⟨es, a, b, sa, sb, hc, _, _, _, _⟩ :=
+    start_refines (n := c.n) (S := c.geom.slotSize) (sz := c.geom.segSize) (nn := c.geom.nseg) h.wf h.block ok.b28
+      ok.div (by have := ok.n4; omega) h.dev ok.rs ok.cap1
+  have hB := h.block
+  have hrun := start_device c.n c.geom.slotSize c.geom.segSize c.geom.nseg (arm d k) (live_arm hg k)
+    (by have := ok.n4; omega) (by rw [arm_flash, hB]; have := ok.b28; omega) (by rw [arm_flash, hB]; exact ok.div)
+    (by rw [arm_flash]; exact h.dev) ok.rs (by rw [arm_flash]; exact hc)
+  rw [arm_flash, hB] at hrun
+  have hfl : ((startUpdate c.n c.geom.slotSize c.geom.segSize c.geom.nseg).run (arm d k)).2.flash = d.flash.applyAll
+      ((Ops.startOps B c.geom.slotSize c.geom.segSize c.geom.nseg a b sa sb).take
+        (min (k.getD (Ops.startOps B c.geom.slotSize c.geom.segSize c.geom.nseg a b sa sb).length)
+          (Ops.startOps B c.geom.slotSize c.geom.segSize c.geom.nseg a b sa sb).length)) := by
+    rw [hrun, flash_outcome_arm hg, ← take_min]
+  obtain ⟨s', hs'⟩ := sim_start ok h hroom hc
+    (min (k.getD (Ops.startOps B c.geom.slotSize c.geom.segSize c.geom.nseg a b sa sb).length)
+      (Ops.startOps B c.geom.slotSize c.geom.segSize c.geom.nseg a b sa sb).length) (Nat.min_le_right _ _)
+  cases k with
+  | none =>
+    have hres : ((startUpdate c.n c.geom.slotSize c.geom.segSize c.geom.nseg).run (arm d none)).1 =
+        .ok (C08.startUpd c.geom.slotSize c.geom.segSize c.geom.nseg a b) := by
+      rw [hrun]; exact outcome_good_fst hg _ _
+    rw [hres]
+    have hram : ramAfter none (Except.map some (.ok (C08.startUpd c.geom.slotSize c.geom.segSize c.geom.nseg a b) :
+        Except MErr Upd)) = some (C08.startUpd c.geom.slotSize c.geom.segSize c.geom.nseg a b) := rfl
+    rw [hram]
+    constructor
+    · rw [hfl]
+      simp only [Option.getD_none, Nat.min_self, ↓reduceIte] at hs' ⊢
+      exact ⟨s', hs'⟩
+    · intro u hu
+      simp only [Option.some.injEq] at hu
+      subst hu
+      obtain ⟨_, _, _, _, h5, h6⟩ := Ops.reasonablySized_ok ok.rs
+      exact ⟨⟨h6, h6, h5⟩, rfl, rfl⟩
+  | some kk =>
+    have hram : ∀ r, ramAfter (some kk) r = none := fun r => rfl
+    rw [hram]
+    refine ⟨?_, fun u hu => by cases hu⟩
+    have hp := hpost (by simp)
+    rw [hfl] at hp ⊢
+    exact sim_none ⟨_, s', hs'⟩ hp
+
+/-- `handle_segment` on any device holding the flash: the headers are not touched, the session object stays one for
+    the same pair of slots -/
+theorem call_segment {c : Cfg} {B : Nat} {f : Flash} {u : Upd} {s : State}
+    (h : Sim c B f (some (pairOf u)) s) (hr : RamOK c.geom.slotSize u) (d : Dev) (hdf : d.flash = f) (ffr : Bool)
+    (idx : Nat) (bytes : List Nat) :
+    Sim c B ((handleSegment ffr idx bytes).run (u, d)).2.2.flash
+      (some (pairOf ((handleSegment ffr idx bytes).run (u, d)).2.1)) s ∧
+    RamOK c.geom.slotSize ((handleSegment ffr idx bytes).run (u, d)).2.1 := by
+  subst hdf
+  obtain ⟨hblk, ⟨new, hrep, _⟩, hinv, _⟩ := Ops.handleSegment_emits (B := d.flash.block) (u.l ≤ u.maxL) u hr.geom ffr idx
+    bytes u d rfl ⟨Ops.SameSess.refl u, fun h => h⟩
+  have hsame := hinv.1
+  have hpair : pairOf ((handleSegment ffr idx bytes).run (u, d)).2.1 = pairOf u := by
+    unfold pairOf; rw [hsame.fw.1, hsame.par.1]
+  rw [hpair]
+  refine ⟨sim_frame h (handleSegment_hdrsOf ffr idx bytes u d c.n c.geom.slotSize hr.geom hr.fs hr.ps) ?_
+    (by rw [hblk]; exact h.block) (by rw [hrep.flash, applyAll_size]), hr.geom.of_same hsame, ?_, ?_⟩
+  · rw [hrep.flash]; exact wf_applyAll h.wf _
+  · rw [hsame.fw.2]; exact hr.fs
+  · rw [hsame.par.2]; exact hr.ps
+
+theorem recoverDecision_rs {g : Geom} {hs : Hdrs} {nw sn : Nat × Header} (h : recoverDecision g hs = some (nw, sn)) :
+    reasonablySized g.slotSize sn.2.size sn.2.n = .ok () := by
+  unfold recoverDecision at h
+  split at h
+  · rename_i nw' sn' _
+    by_cases c1 : totalStatus nw'.2 ≠ TotalStatus.appWriteInProgress
+    · rw [if_pos c1] at h; cases h
+    rw [if_neg c1] at h
+    by_cases c2 : nw'.2.kind ≠ Kind.parity
+    · rw [if_pos c2] at h; cases h
+    rw [if_neg c2] at h
+    by_cases c3 : totalStatus sn'.2 ≠ TotalStatus.appWriteInProgress
+    · rw [if_pos c3] at h; cases h
+    rw [if_neg c3] at h
+    by_cases c4 : sn'.2.kind ≠ Kind.firmware
+    · rw [if_pos c4] at h; cases h
+    rw [if_neg c4] at h
+    by_cases c5 : nw'.2.size ≠ sn'.2.size
+    · rw [if_pos c5] at h; cases h
+    rw [if_neg c5] at h
+    by_cases c6 : nw'.2.n > VBITS
+    · rw [if_pos c6] at h; cases h
+    rw [if_neg c6] at h
+    cases hr : reasonablySized g.slotSize sn'.2.size sn'.2.n with
+    | error e => rw [hr] at h; cases h
+    | ok v =>
+      rw [hr] at h
+      simp only [Option.some.injEq, Prod.mk.injEq] at h
+      rw [← h.2]; exact hr
+  · cases h
+
+theorem blStatus_used {hs : Hdrs} {i : Nat} (h : blStatus hs = some (.inl i) ∨ blStatus hs = some (.inr i)) :
+    ∃ hd, Used hs i hd := by
+  rcases h with h | h
+  all_goals
+    obtain ⟨i', hd, ⟨hu, _⟩, hr, -⟩ := Ring.blStatus_eq_some.mp h
+    by_cases hst : totalStatus hd = TotalStatus.bootloadWriteInProgress
+    · simp only [hst, ↓reduceIte, Sum.inl.injEq, reduceCtorEq] at hr
+      first | exact ⟨hd, hr ▸ hu⟩ | skip
+    · simp only [hst, ↓reduceIte, Sum.inr.injEq, reduceCtorEq] at hr
+      first | exact ⟨hd, hr ▸ hu⟩ | skip
+
+/-- `cancel_all_ext_pending`, run to its end or cut by a power loss -/
+theorem call_cancel {c : Cfg} {B : Nat} (ok : CfgOK c B) {f : Flash} {se : Option (Nat × Nat)} {s : State}
+    (h : Sim c B f se s) (hroom : SeqRoom 2 (hdrsOf f c.n c.geom.slotSize)) (d : Dev) (k : Option Nat) (hg : Good d)
+    (hdf : d.flash = f) : ∃ s', Sim c B ((cancelAll c.n c.geom.slotSize).run (arm d k)).2.flash none s' := by
+  subst hdf
+  have hrun := cancelAll_device c.n c.geom.slotSize (arm d k) (live_arm hg k) ok.slot28 (by rw [arm_flash]; exact h.dev)
+  rw [arm_flash] at hrun
+  rw [hrun, flash_outcome_arm hg, take_min]
+  exact sim_cancel ok h hroom _ (Nat.min_le_right _ _)
+
+/-- a status mark (one word), run to its end or cut by a power loss -/
+theorem call_mark {c : Cfg} {B : Nat} {f : Flash} {se : Option (Nat × Nat)} {s : State}
+    (h : Sim c B f se s) (hroom : SeqRoom 2 (hdrsOf f c.n c.geom.slotSize)) (d : Dev) (k : Option Nat) (hg : Good d)
+    (hdf : d.flash = f) (x : M Unit) (op : Op)
+    (hx : ∀ e, Live e → e.flash.size = f.size → x.run e = outcome e () [op]) {e : Eff}
+    (href : hdrsOf (f.apply op) c.n c.geom.slotSize = apply1 (hdrsOf f c.n c.geom.slotSize) e)
+    (hhas : ∀ s : State, s.hs = hdrsOf f c.n c.geom.slotSize → ∃ t ∈ blSuccs s, t.2.hs = apply1 s.hs e ∧ t.2.sess = s.sess) :
+    ∃ s', Sim c B (x.run (arm d k)).2.flash (if k = none then se else none) s' := by
+  subst hdf
+  rw [hx (arm d k) (live_arm hg k) (by rw [arm_flash]), flash_outcome_arm hg]
+  cases k with
+  | none =>
+    simp only [Option.getD_none, List.length_cons, List.length_nil, Nat.zero_add, List.take_succ_cons, List.take_zero,
+      Flash.applyAll, List.foldl_cons, List.foldl_nil, ↓reduceIte]
+    exact sim_mark h hroom op href (hhas s h.hs)
+  | some kk =>
+    simp only [Option.getD_some, reduceCtorEq, ↓reduceIte]
+    obtain ⟨s0, hs0⟩ := sim_drop h hroom
+    cases kk with
+    | zero => exact ⟨s0, hs0⟩
+    | succ j =>
+      simp only [List.take_succ_cons, List.take_nil, Flash.applyAll, List.foldl_cons, List.foldl_nil]
+      exact sim_mark hs0 hroom op href (hhas s0 hs0.hs)
+
+/-- `check_and_mark_done`, run to its end or cut by a power loss -/
+theorem call_check {c : Cfg} {B : Nat} (ok : CfgOK c B) {f : Flash} {u : Upd} {s : State}
+    (h : Sim c B f (some (pairOf u)) s) (hr : RamOK c.geom.slotSize u)
+    (hroom : SeqRoom 2 (hdrsOf f c.n c.geom.slotSize)) (hbl : blStatus (hdrsOf f c.n c.geom.slotSize) = none)
+    (d : Dev) (k : Option Nat) (hg : Good d) (hdf : d.flash = f) :
+    ∃ s', Sim c B ((checkAndMarkDone u).run (arm d k)).2.flash none s' := by
+  subst hdf
+  have hS := ok.slot28
+  have hinv := C12.reachable_inv1 c ok.n4 h.reach
+  obtain ⟨_, _, _, huf, _, _, hup, _, _, _⟩ := hinv.sess u.fw.idx u.par.idx h.sess
+  rw [h.hs] at huf hup
+  have hfin : u.fw.idx * c.geom.slotSize + 28 ≤ d.flash.size := by
+    have := slot_in_dev h.dev (used_hdrsOf.mp huf).1; omega
+  have hpin : u.par.idx * c.geom.slotSize + 28 ≤ d.flash.size := by
+    have := slot_in_dev h.dev (used_hdrsOf.mp hup).1; omega
+  obtain ⟨ops, hops, hrun, _⟩ := check_device u c.geom.slotSize hr.fs hr.ps (arm d k) (live_arm hg k)
+    (by rw [arm_flash]; exact hfin) (by rw [arm_flash]; exact hpin)
+  rw [hrun, flash_outcome_arm hg]
+  rcases hops with rfl | rfl
+  · simp only [List.take_nil, Flash.applyAll, List.foldl_nil]
+    exact sim_drop h hroom
+  · rw [take_min]
+    exact sim_complete ok h hroom hbl _ (Nat.min_le_right _ _)
+
+theorem recover_room {c : Cfg} {B : Nat} (ok : CfgOK c B) {f : Flash} (hwf : Crash.WF f) (hB : f.block = B)
+    (hdev : c.n * c.geom.slotSize ≤ f.size) (hroom : SeqRoom 2 (hdrsOf f c.n c.geom.slotSize)) (k : Nat) :
+    SeqRoom 2 (hdrsOf (f.applyAll ((recoverOps c.geom c.geom.slotSize B (hdrsOf f c.n c.geom.slotSize)).take k)) c.n
+      c.geom.slotSize) := by
+  rw [recover_refines (g := c.geom) hwf hB ok.b28 ok.slot28 ok.div hdev k]
+  apply seqRoom_sub hroom
+  have hsrc := Ring.recoverEffs_src c (hdrsOf f c.n c.geom.slotSize)
+  have hrec : c.recoverEffs (hdrsOf f c.n c.geom.slotSize) = recoverEffs c.geom (hdrsOf f c.n c.geom.slotSize) := by
+    unfold Cfg.recoverEffs; simp [ok.twoPass]
+  rw [hrec] at hsrc
+  exact Ring.take_sub hsrc _
+
+theorem cancel_room {c : Cfg} {B : Nat} (ok : CfgOK c B) {f : Flash} (hwf : Crash.WF f)
+    (hdev : c.n * c.geom.slotSize ≤ f.size) (hroom : SeqRoom 2 (hdrsOf f c.n c.geom.slotSize)) (k : Nat) :
+    SeqRoom 2 (hdrsOf (f.applyAll ((cancelOps c.geom.slotSize (indexed (hdrsOf f c.n c.geom.slotSize))).take k)) c.n
+      c.geom.slotSize) := by
+  rw [cancel_refines hwf ok.slot28 hdev k]
+  exact seqRoom_sub hroom (Ring.take_sub (Ring.cancelEffs_src _) _)
+
+/-- `try_recover`, run to its end or cut by a power loss. When the call decides on a session but finds
+    `l > max_l` afterwards it cancels on the remediated flash: two transitions of the machine (recover, then cancel). -/
+theorem call_recover {c : Cfg} {B : Nat} (ok : CfgOK c B) {f : Flash} {se : Option (Nat × Nat)} {s : State}
+    (h : Sim c B f se s) (hroom : SeqRoom 2 (hdrsOf f c.n c.geom.slotSize)) (d : Dev) (k : Option Nat) (hg : Good d)
+    (hdf : d.flash = f) :
+    (∃ s', Sim c B ((tryRecover c.n c.geom.slotSize).run (arm d k)).2.flash
+      ((ramAfter k ((tryRecover c.n c.geom.slotSize).run (arm d k)).1).map pairOf) s') ∧
+    ∀ u, ramAfter k ((tryRecover c.n c.geom.slotSize).run (arm d k)).1 = some u → RamOK c.geom.slotSize u := by
+  subst hdf
+  have hS := ok.slot28
+  have hB := h.block
+  have h28 := ok.b28
+  have hdev2 := tryRecover_device2 c.n c.geom.slotSize c.geom rfl (arm d k) (live_arm hg k)
+    (by rw [arm_flash, hB]; omega) (by rw [arm_flash, hB]; exact ok.div) hS (by rw [arm_flash]; exact h.dev)
+  rw [arm_flash, hB] at hdev2
+  obtain ⟨extra, hex, hrun, hres⟩ := hdev2
+  have hfl : ((tryRecover c.n c.geom.slotSize).run (arm d k)).2.flash = d.flash.applyAll
+      ((recoverOps c.geom c.geom.slotSize B (hdrsOf d.flash c.n c.geom.slotSize) ++ extra).take
+        (k.getD (recoverOps c.geom c.geom.slotSize B (hdrsOf d.flash c.n c.geom.slotSize) ++ extra).length)) := by
+    rw [hrun, flash_outcome_arm hg]
+  have hr1 := fun j => recover_room ok h.wf hB h.dev hroom j
+  -- the flash afterwards is that of a reachable state, with sequence room
+  have hA : (∃ se' s', Sim c B ((tryRecover c.n c.geom.slotSize).run (arm d k)).2.flash se' s') ∧
+      SeqRoom 2 (hdrsOf ((tryRecover c.n c.geom.slotSize).run (arm d k)).2.flash c.n c.geom.slotSize) := by
+    rw [hfl]
+    generalize k.getD (recoverOps c.geom c.geom.slotSize B (hdrsOf d.flash c.n c.geom.slotSize) ++ extra).length = K
+    by_cases hK : K ≤ (recoverOps c.geom c.geom.slotSize B (hdrsOf d.flash c.n c.geom.slotSize)).length
+    · rw [List.take_append_of_le_length hK]
+      obtain ⟨s', hs'⟩ := sim_recover ok h hroom K hK
+      exact ⟨⟨_, s', hs'⟩, hr1 K⟩
+    · obtain ⟨s1, hs1⟩ := sim_recover ok h hroom _ (Nat.le_refl _)
+      have hroom1 := hr1 (recoverOps c.geom c.geom.slotSize B (hdrsOf d.flash c.n c.geom.slotSize)).length
+      rw [List.take_length] at hs1 hroom1
+      rw [List.take_append, List.take_of_length_le (by omega), Ops.applyAll_append]
+      rcases hex with rfl | ⟨_, rfl⟩
+      · simp only [List.take_nil, Flash.applyAll, List.foldl_nil]
+        exact ⟨⟨_, s1, hs1⟩, hroom1⟩
+      · rw [take_min]
+        obtain ⟨s2, hs2⟩ := sim_cancel ok hs1 hroom1 _ (Nat.min_le_right _ _)
+        exact ⟨⟨_, s2, hs2⟩, cancel_room ok hs1.wf hs1.dev hroom1 _⟩
+  -- a returned session object is the one the machine's recover decides on
+  have hBq : ∀ u, ramAfter k ((tryRecover c.n c.geom.slotSize).run (arm d k)).1 = some u →
+      (∃ s', Sim c B ((tryRecover c.n c.geom.slotSize).run (arm d k)).2.flash (some (pairOf u)) s') ∧
+      RamOK c.geom.slotSize u := by
+    intro u hu
+    cases k with
+    | some kk => cases hu
+    | none =>
+      have hok : ((tryRecover c.n c.geom.slotSize).run (arm d none)).1 = .ok (some u) := by
+        cases hr : ((tryRecover c.n c.geom.slotSize).run (arm d none)).1 with
+        | error e => rw [hr] at hu; cases hu
+        | ok o =>
+          rw [hr] at hu
+          have : o = some u := hu
+          rw [this]
+      obtain ⟨rfl, nw, sn, hdec, hfw, hpar, hn, hbs⟩ := hres u hok
+      have hrs := recoverDecision_rs hdec
+      obtain ⟨_, _, _, _, h5, h6⟩ := Ops.reasonablySized_ok hrs
+      constructor
+      · rw [hfl]
+        simp only [Option.getD_none, List.append_nil, List.take_length]
+        obtain ⟨s1, hs1⟩ := sim_recover ok h hroom _ (Nat.le_refl _)
+        rw [List.take_length, if_pos rfl] at hs1
+        have hp : (recoverEffs c.geom (hdrsOf d.flash c.n c.geom.slotSize)).1 = some (pairOf u) := by
+          unfold recoverEffs pairOf
+          rw [hdec, hfw, hpar]
+        rw [hp] at hs1
+        exact ⟨s1, hs1⟩
+      · refine ⟨⟨?_, ?_, ?_⟩, ?_, ?_⟩
+        · rw [hfw]; exact h6
+        · rw [hpar]; exact h6
+        · rw [hfw, hn, hbs]; exact h5
+        · rw [hfw]
+        · rw [hpar]
+  cases hram : ramAfter k ((tryRecover c.n c.geom.slotSize).run (arm d k)).1 with
+  | none => exact ⟨sim_none hA.1 hA.2, fun u hu => by cases hu⟩
+  | some u =>
+    obtain ⟨h1, h2⟩ := hBq u hram
+    exact ⟨h1, fun u' hu' => by cases hu'; exact h2⟩
+
+/-- **call-level histories**: every step is a real call of the flash-level model (`start_update`, `handle_segment`,
+    `check_and_mark_done`, `try_recover`, `cancel_all_ext_pending`, the three status marks of bootloader and
+    application, a reboot), run on a good device holding the current flash (`Good d`, `d.flash = f`), either to its
+    end (`k = none`) or with a clean power loss armed before its `k`-th mutating operation (`k = some k`: `arm d k =
+    d.withCrash k`; the device then reboots, so the session object in RAM is lost). `handle_segment` may run on any
+    device holding the current flash (faulty, with a power loss armed anywhere, dead). The second component is the
+    session object in RAM. `SeqRoom 2`: no sequence wrap-around in the step (after a power loss inside `start_update`
+    also for the reboot that follows). A `check_and_mark_done` that wrote nothing may keep its session object.
+    Completion is only attempted when no image is pending (the proviso of C12). -/
+inductive CallHist (c : Cfg) (B : Nat) : Flash → Option Upd → Prop
+  | init (f : Flash) : Crash.WF f → f.block = B → c.n * c.geom.slotSize ≤ f.size →
+      (∀ i, i < c.n → NoPanic.hdrAt f (i * c.geom.slotSize) = none) → CallHist c B f none
+  | start {f : Flash} {ram : Option Upd} (d : Dev) (k : Option Nat) : CallHist c B f ram → Good d → d.flash = f →
+      SeqRoom 2 (hdrsOf f c.n c.geom.slotSize) →
+      (k ≠ none → SeqRoom 2 (hdrsOf ((startUpdate c.n c.geom.slotSize c.geom.segSize c.geom.nseg).run (arm d k)).2.flash
+        c.n c.geom.slotSize)) →
+      CallHist c B ((startUpdate c.n c.geom.slotSize c.geom.segSize c.geom.nseg).run (arm d k)).2.flash
+        (ramAfter k (((startUpdate c.n c.geom.slotSize c.geom.segSize c.geom.nseg).run (arm d k)).1.map some))
+  | segment {f : Flash} {u : Upd} (d : Dev) (ffr : Bool) (idx : Nat) (bytes : List Nat) :
+      CallHist c B f (some u) → d.flash = f →
+      CallHist c B ((handleSegment ffr idx bytes).run (u, d)).2.2.flash
+        (some ((handleSegment ffr idx bytes).run (u, d)).2.1)
+  | check {f : Flash} {u : Upd} (d : Dev) (k : Option Nat) (ram' : Option Upd) : CallHist c B f (some u) → Good d →
+      d.flash = f → SeqRoom 2 (hdrsOf f c.n c.geom.slotSize) → blStatus (hdrsOf f c.n c.geom.slotSize) = none →
+      (ram' = none ∨ (ram' = some u ∧ ((checkAndMarkDone u).run (arm d k)).2.flash = f)) →
+      CallHist c B ((checkAndMarkDone u).run (arm d k)).2.flash ram'
+  | recover {f : Flash} {ram : Option Upd} (d : Dev) (k : Option Nat) : CallHist c B f ram → Good d → d.flash = f →
+      SeqRoom 2 (hdrsOf f c.n c.geom.slotSize) →
+      CallHist c B ((tryRecover c.n c.geom.slotSize).run (arm d k)).2.flash
+        (ramAfter k ((tryRecover c.n c.geom.slotSize).run (arm d k)).1)
+  | cancel {f : Flash} {ram : Option Upd} (d : Dev) (k : Option Nat) : CallHist c B f ram → Good d → d.flash = f →
+      SeqRoom 2 (hdrsOf f c.n c.geom.slotSize) →
+      CallHist c B ((cancelAll c.n c.geom.slotSize).run (arm d k)).2.flash none
+  | copyDone {f : Flash} {ram : Option Upd} {i : Nat} (d : Dev) (k : Option Nat) : CallHist c B f ram → Good d →
+      d.flash = f → SeqRoom 2 (hdrsOf f c.n c.geom.slotSize) →
+      blStatus (hdrsOf f c.n c.geom.slotSize) = some (.inl i) →
+      CallHist c B ((Slot.markIntComplete { idx := i, size := c.geom.slotSize }).run (arm d k)).2.flash
+        (if k = none then ram else none)
+  | confirm {f : Flash} {ram : Option Upd} {i : Nat} (d : Dev) (k : Option Nat) : CallHist c B f ram → Good d →
+      d.flash = f → SeqRoom 2 (hdrsOf f c.n c.geom.slotSize) →
+      blStatus (hdrsOf f c.n c.geom.slotSize) = some (.inr i) →
+      CallHist c B ((Slot.markBootOk { idx := i, size := c.geom.slotSize }).run (arm d k)).2.flash
+        (if k = none then ram else none)
+  | reject {f : Flash} {ram : Option Upd} {i : Nat} (d : Dev) (k : Option Nat) : CallHist c B f ram → Good d →
+      d.flash = f → SeqRoom 2 (hdrsOf f c.n c.geom.slotSize) →
+      blStatus (hdrsOf f c.n c.geom.slotSize) = some (.inr i) →
+      CallHist c B ((Slot.markBootBad { idx := i, size := c.geom.slotSize }).run (arm d k)).2.flash
+        (if k = none then ram else none)
+  | reboot {f : Flash} {ram : Option Upd} : CallHist c B f ram → SeqRoom 2 (hdrsOf f c.n c.geom.slotSize) →
+      CallHist c B f none
+
+theorem map_ite_ram (k : Option Nat) (ram : Option Upd) :
+    (if k = none then ram else none).map pairOf = if k = none then ram.map pairOf else none := by
+  cases k <;> rfl
+
+/-- **the real calls simulate into the machine**: along every call-level history — real M-level calls, each possibly
+    cut by a power loss at an operation boundary — the headers read from the flash are those of a reachable state of
+    the header-level machine whose RAM session is the pair of slots of the session object in RAM, and that object is
+    one `handle_segment` and `check_and_mark_done` accept (`RamOK`) -/
+theorem flash_call_simulates (c : Cfg) (B : Nat) (ok : CfgOK c B) {f : Flash} {ram : Option Upd}
+    (h : CallHist c B f ram) :
+    (∃ s, Sim c B f (ram.map pairOf) s) ∧ ∀ u, ram = some u → RamOK c.geom.slotSize u := by
+  have hS := ok.slot28
+  induction h with
+  | init f hwf hB hdev hblank =>
+    refine ⟨⟨State.init c.n, C05.Reachable.init, ?_, rfl, hwf, hB, hdev⟩, fun u hu => by cases hu⟩
+    apply List.ext_getElem?
+    intro j
+    by_cases hj : j < c.n
+    · rw [hdrsOf_get f c.n _ j hj, hblank j hj]
+      simp [State.init, hj]
+    · rw [List.getElem?_eq_none (by simp [State.init]; omega),
+        List.getElem?_eq_none (by rw [hdrsOf_length]; omega)]
+  | start d k _ hg hdf hroom hpost ih =>
+    obtain ⟨⟨s, hs⟩, _⟩ := ih
+    exact call_start ok hs hroom d k hg hdf hpost
+  | segment d ffr idx bytes _ hdf ih =>
+    obtain ⟨⟨s, hs⟩, hr⟩ := ih
+    obtain ⟨h1, h2⟩ := call_segment hs (hr _ rfl) d hdf ffr idx bytes
+    exact ⟨⟨s, h1⟩, fun u' hu' => by cases hu'; exact h2⟩
+  | check d k ram' _ hg hdf hroom hbl hram ih =>
+    obtain ⟨⟨s, hs⟩, hr⟩ := ih
+    rcases hram with rfl | ⟨rfl, hfl⟩
+    · exact ⟨call_check ok hs (hr _ rfl) hroom hbl d k hg hdf, fun u hu => by cases hu⟩
+    · rw [hfl]
+      exact ⟨⟨s, hs⟩, hr⟩
+  | recover d k _ hg hdf hroom ih =>
+    obtain ⟨⟨s, hs⟩, _⟩ := ih
+    exact call_recover ok hs hroom d k hg hdf
+  | cancel d k _ hg hdf hroom ih =>
+    obtain ⟨⟨s, hs⟩, _⟩ := ih
+    exact ⟨call_cancel ok hs hroom d k hg hdf, fun u hu => by cases hu⟩
+  | @copyDone f ram i d k _ hg hdf hroom hbl ih =>
+    obtain ⟨⟨s, hs⟩, hr⟩ := ih
+    obtain ⟨e, he, href⟩ := copyDone_refines hs.wf hS hs.dev hbl
+    obtain ⟨hd, hu⟩ := blStatus_used (Or.inl hbl)
+    have hin := slot_in_dev hs.dev (used_hdrsOf.mp hu).1
+    refine ⟨?_, fun u hu => hr u (by cases k <;> first | exact hu | cases hu)⟩
+    rw [map_ite_ram]
+    refine call_mark hs hroom d k hg hdf _ _ (fun e' he' hz => ?_) href (fun s' hs' => copyDone_has s' (by rw [hs']; exact he))
+    exact writeWord_cr (T := f.size) (B := e'.flash.block) { idx := i, size := c.geom.slotSize } Consts.INT_OFFSET _
+      (by show i * c.geom.slotSize + 20 + 4 ≤ _; omega) e' he' hz rfl
+  | @confirm f ram i d k _ hg hdf hroom hbl ih =>
+    obtain ⟨⟨s, hs⟩, hr⟩ := ih
+    obtain ⟨⟨e, he, href⟩, _⟩ := bootMark_refines hs.wf hS hs.dev hbl
+    obtain ⟨hd, hu⟩ := blStatus_used (Or.inr hbl)
+    have hin := slot_in_dev hs.dev (used_hdrsOf.mp hu).1
+    refine ⟨?_, fun u hu => hr u (by cases k <;> first | exact hu | cases hu)⟩
+    rw [map_ite_ram]
+    refine call_mark hs hroom d k hg hdf _ _ (fun e' he' hz => ?_) href (fun s' hs' => confirm_has s' (by rw [hs']; exact he))
+    exact writeWord_cr (T := f.size) (B := e'.flash.block) { idx := i, size := c.geom.slotSize } Consts.BOOT_OFFSET _
+      (by show i * c.geom.slotSize + 24 + 4 ≤ _; omega) e' he' hz rfl
+  | @reject f ram i d k _ hg hdf hroom hbl ih =>
+    obtain ⟨⟨s, hs⟩, hr⟩ := ih
+    obtain ⟨_, ⟨e, he, href⟩⟩ := bootMark_refines hs.wf hS hs.dev hbl
+    obtain ⟨hd, hu⟩ := blStatus_used (Or.inr hbl)
+    have hin := slot_in_dev hs.dev (used_hdrsOf.mp hu).1
+    refine ⟨?_, fun u hu => hr u (by cases k <;> first | exact hu | cases hu)⟩
+    rw [map_ite_ram]
+    refine call_mark hs hroom d k hg hdf _ _ (fun e' he' hz => ?_) href (fun s' hs' => reject_has s' (by rw [hs']; exact he))
+    exact writeWord_cr (T := f.size) (B := e'.flash.block) { idx := i, size := c.geom.slotSize } Consts.BOOT_OFFSET _
+      (by show i * c.geom.slotSize + 24 + 4 ≤ _; omega) e' he' hz rfl
+  | reboot _ hroom ih =>
+    obtain ⟨⟨s, hs⟩, _⟩ := ih
+    exact ⟨sim_drop hs hroom, fun u hu => by cases hu⟩
+
+/-- **`flash_call_reachable_ringInv`**: along any sequence of real calls with power losses at operation boundaries,
+    the headers `load_headers` reads are those of a reachable state of the header-level machine, whose RAM session is
+    the pair of slots of the session object in RAM — so the ring invariant holds of them, and C05 / C12 / C13's
+    theorems about reachable states apply to the real calls of the flash-level model. -/
+theorem flash_call_reachable_ringInv (c : Cfg) (B : Nat) (ok : CfgOK c B) {f : Flash} {ram : Option Upd}
+    (h : CallHist c B f ram) :
+    (∃ s, C05.Reachable c s ∧ s.hs = hdrsOf f c.n c.geom.slotSize ∧ s.sess = ram.map pairOf) ∧
+    RingInv c.n (hdrsOf f c.n c.geom.slotSize) := by
+  obtain ⟨⟨s, hs⟩, _⟩ := flash_call_simulates c B ok h
+  exact ⟨⟨s, hs.reach, hs.hs, hs.sess⟩, hs.hs ▸ C05.reachable_ringInv c ok.n4 hs.reach⟩
+
+/-- C05 over the real calls: in every call-level history, the pair `alloc_slotpair` chooses from the headers on flash
+    never contains the slot the fallback query names -/
+theorem flash_call_alloc_spares_fallback (c : Cfg) (B : Nat) (ok : CfgOK c B) {f : Flash} {ram : Option Upd}
+    (h : CallHist c B f ram) (fb : Nat) (hf : fallbackSlot (hdrsOf f c.n c.geom.slotSize) = some fb) :
+    ∃ a b sa sb, choosePair c.n (hdrsOf f c.n c.geom.slotSize) = .ok (a, b, sa, sb) ∧ a ≠ fb ∧ b ≠ fb := by
+  obtain ⟨_, hinv⟩ := flash_call_reachable_ringInv c B ok h
+  obtain ⟨a, b, sa, sb, hc, h1, h2, _⟩ := C05.alloc_spares_fallback c.n ok.n4 _ hinv.1 hinv.2.1 fb hf
+  exact ⟨a, b, sa, sb, hc, h1, h2⟩
+
+/-- C13 over the real calls: the session `try_recover` would return from the headers on flash was written by one start
+    attempt, is live, and — when the latest start succeeded and was neither completed nor cancelled — is that one
+    (stated through the ghost fields of the simulating machine state) -/
+theorem flash_call_recover_no_chimera (c : Cfg) (B : Nat) (ok : CfgOK c B) {f : Flash} {ram : Option Upd}
+    (h : CallHist c B f ram) {r : Nat × Nat}
+    (hr : (recover c.geom (hdrsOf f c.n c.geom.slotSize)).1 = some r) :
+    ∃ s, C05.Reachable c s ∧ s.hs = hdrsOf f c.n c.geom.slotSize ∧ r ∈ s.live ∧
+      (∃ k, s.att.getD r.1 none = some k ∧ s.att.getD r.2 none = some k) ∧ ∀ m, s.must = some m → m = r := by
+  obtain ⟨⟨s, hs⟩, _⟩ := flash_call_simulates c B ok h
+  have hr' : (recover c.geom s.hs).1 = some r := by rw [hs.hs]; exact hr
+  obtain ⟨h1, h2⟩ := C13.recover_only_live_session c ok.n4 ok.twoPass hs.reach hr'
+  exact ⟨s, hs.reach, hs.hs, h1, C13.no_chimera c ok.n4 ok.twoPass hs.reach (f := r.1) (p := r.2) hr', h2⟩
+
+/-- the session object a real `try_recover` returns at the end of a call-level history is for the pair the machine's
+    `recover` names — so it is live and no chimera -/
+theorem flash_call_recovered_session (c : Cfg) (B : Nat) (ok : CfgOK c B) {f : Flash} {ram : Option Upd}
+    (h : CallHist c B f ram) (d : Dev) (hg : Good d) (hdf : d.flash = f)
+    (hroom : SeqRoom 2 (hdrsOf f c.n c.geom.slotSize)) {u : Upd}
+    (hu : ((tryRecover c.n c.geom.slotSize).run d).1 = .ok (some u)) :
+    (recover c.geom (hdrsOf f c.n c.geom.slotSize)).1 = some (pairOf u) := by
+  subst hdf
+  obtain ⟨⟨s, hs⟩, _⟩ := flash_call_simulates c B ok h
+  obtain ⟨extra, _, _, hres⟩ := tryRecover_device2 c.n c.geom.slotSize c.geom rfl d (live_of_good hg)
+    (by rw [hs.block]; have := ok.b28; omega) (by rw [hs.block]; exact ok.div) ok.slot28 hs.dev
+  obtain ⟨_, nw, sn, hdec, hfw, hpar, _, _⟩ := hres u hu
+  unfold recover recoverEffs pairOf
+  rw [hdec, hfw, hpar]
+
+/-! ### non-vacuity of the call-level histories -/
+
+theorem exCfg_ok : CfgOK exCfg 4096 :=
+  ⟨by decide, rfl, rfl, by show reasonablySized 20480 4 18 = .ok (); rfl, by simp [exCfg, geomOf],
+    by show 1 ≤ capacity 20480 4; rw [show capacity 20480 4 = 188 by decide]; decide, by decide, by decide⟩
+
+/-- the blank device is a call-level history -/
+theorem blank_call : CallHist exCfg 4096 blankDev.flash none := by
+  apply CallHist.init
+  · exact Crash.WF.blank _ _
+  · rfl
+  · exact blankDev_size
+  · intro i _
+    exact hdrAt_of_hdrFF (fun j _ => blank_byte _)
+
+theorem blank_room : SeqRoom 2 (hdrsOf blankDev.flash exCfg.n exCfg.geom.slotSize) := by
+  show SeqRoom 2 (hdrsOf (Flash.blank 4096 (4 * 20480)) 4 20480)
+  rw [blank_hdrs]; decide
+
+/-- from the blank ring: the real `try_recover` and `cancel_all_ext_pending`, run to the end or with a power loss
+    armed before any operation, are history steps -/
+example (k : Option Nat) :
+    CallHist exCfg 4096 ((tryRecover 4 20480).run (arm blankDev k)).2.flash
+      (ramAfter k ((tryRecover 4 20480).run (arm blankDev k)).1) ∧
+    CallHist exCfg 4096 ((cancelAll 4 20480).run (arm blankDev k)).2.flash none :=
+  ⟨CallHist.recover (c := exCfg) blankDev k blank_call blankDev_good rfl blank_room,
+   CallHist.cancel (c := exCfg) blankDev k blank_call blankDev_good rfl blank_room⟩
+
+/-- from the blank ring: the real `start_update` run to its end (on any good device holding the blank flash) returns
+    the session object for the pair `(0, 1)` -/
+theorem blank_started (d : Dev) (hg : Good d) (hd : d.flash = blankDev.flash) :
+    CallHist exCfg 4096 ((startUpdate 4 20480 4 18).run d).2.flash (some (C08.startUpd 20480 4 18 0 1)) := by
+  have h : CallHist exCfg 4096 ((startUpdate 4 20480 4 18).run d).2.flash
+      (ramAfter none (((startUpdate 4 20480 4 18).run d).1.map some)) :=
+    CallHist.start (c := exCfg) d none blank_call hg hd blank_room (fun h => absurd rfl h)
+  obtain ⟨es, a, b, sa, sb, hc, _, hres, _⟩ := start_runs 4 20480 4 18 d hg (by rw [hd]; exact Crash.WF.blank _ _)
+    (by rw [hd]; decide) (by rw [hd]; decide) (by decide) (by rw [hd]; exact blankDev_size) rfl
+    (by rw [show capacity 20480 4 = 188 by decide]; decide)
+  rw [hd] at hc
+  have hc' : choosePair 4 (hdrsOf (Flash.blank 4096 (4 * 20480)) 4 20480) = .ok (a, b, sa, sb) := hc
+  rw [blank_hdrs] at hc'
+  have hab : (0, 1, 0, 1) = (a, b, sa, sb) := by
+    have : choosePair 4 [none, none, none, none] = .ok (0, 1, 0, 1) := rfl
+    rw [this] at hc'
+    injection hc'
+  simp only [Prod.mk.injEq] at hab
+  obtain ⟨rfl, rfl, rfl, rfl⟩ := hab
+  rw [hres] at h
+  exact h
+
+/-- … and then any `handle_segment`, on any device holding that flash, is a history step -/
+example (d : Dev) (hg : Good d) (hd : d.flash = blankDev.flash) (d' : Dev)
+    (hd' : d'.flash = ((startUpdate 4 20480 4 18).run d).2.flash) (ffr : Bool) (idx : Nat) (bytes : List Nat) :
+    CallHist exCfg 4096 ((handleSegment ffr idx bytes).run (C08.startUpd 20480 4 18 0 1, d')).2.2.flash
+      (some ((handleSegment ffr idx bytes).run (C08.startUpd 20480 4 18 0 1, d')).2.1) :=
+  CallHist.segment d' ffr idx bytes (blank_started d hg hd) hd'
+
+example (d : Dev) (hg : Good d) (hd : d.flash = blankDev.flash) :=
+  flash_call_reachable_ringInv exCfg 4096 exCfg_ok (blank_started d hg hd)
+
+/-- such a device exists -/
+example : Good blankDev ∧ blankDev.flash = blankDev.flash := ⟨blankDev_good, rfl⟩
 
 end Fuota.RingRefine
